@@ -791,7 +791,9 @@ class ExprMixin:
             if tag is None and base.ref.startswith("global:") and isinstance(idx, VStr):
                 # module-level mapping indexed by a computed string: KeyError unless the key is present
                 self.safe_or_raise(self.opaque_has_key(base, idx), "KeyError", node, fr, "subscript")
-                return VAtom(z3.Int(self.new_ref(base.ref.split(".")[-1] + "_value")))
+                val = VStr.var(self.new_ref(base.ref.split(".")[-1] + "_value"))
+                self.assume_axiom(val.b >= 0)
+                return val
             if tag is None:
                 raise Unsupported("opaque subscript with symbolic key")
             self.assumption_log.add(f"subscript of opaque value {base.ref.split('#')[0]} assumed not to raise")
@@ -999,6 +1001,13 @@ class ExprMixin:
             if container.ref.startswith("global:") and isinstance(x, VStr):
                 # a module-level mapping (read-only after import, C12 FRAME): the outcome is a function of the key
                 return self.opaque_has_key(container, x)
+            if isinstance(x, VStr) and x.kind == "lit":
+                # the same literal key in the same mapping, with no call and no store into an opaque mapping in between:
+                # the same outcome (env is only written by such stores / by callees)
+                k = ("haskey", container.ref, x.a, self.opaque_epoch)
+                if k not in self.ghost:
+                    self.ghost[k] = fresh("in_opaque", "bool")
+                return self.ghost[k]
             return fresh("in_opaque", "bool")
         raise Unsupported(f"in on {container!r}")
 
